@@ -65,10 +65,10 @@ set(v)
 set(v)
 set(v)
 iter(v)
-iter(tuple(v))
-iter(list(v))
-reversed(tuple(v))
-reversed(list(v))
+iter(v)
+iter(v)
+reversed(v)
+reversed(v)
 tuple(v)
 tuple(v)
 tuple(v)
